@@ -110,6 +110,7 @@ type loopFn struct {
 	flat    []int  // for each Go parameter, how many Lean parameters it was flattened into
 	structBase []string // for each Go parameter, its name (prefix of the flattened Lean names)
 	retVar  string // element mode: the variable whose final value is the result ("" if none)
+	nilable bool   // element mode: the Go function returns a pointer that may be nil (Option)
 }
 
 // struct parameters are flattened into their fields
